@@ -36,6 +36,16 @@ TAddRows == /\ IsEvent("AddRows")
                /\ resp' = [kind |-> "addrow", id |-> Len(w[p].rows) + Len(rs) - 1]
             /\ UNCHANGED <<files, ix, qobj, hid, dictOK>>
 TDropWriter == IsEvent("DropWriter") /\ DropWriter(Ev.p) /\ UNCHANGED <<hid, dictOK>>
+\* rows added concurrently: the returned ids must be exactly the next n ids, each once; the index is
+\* the one a sequential insertion in id order produces (C18)
+TConcAddRows == /\ IsEvent("ConcAddRows")
+                /\ LET p == Ev.p  items == Ev.items  n == Len(items)  base == Len(w[p].rows)
+                       ids == {items[i][1] : i \in DOMAIN items} IN
+                   /\ w[p].kind # "none" /\ ~w[p].done
+                   /\ ids = base..(base + n - 1)
+                   /\ w' = [w EXCEPT ![p].rows = @ \o [j \in 1..n |-> RowOf(items[CHOOSE i \in DOMAIN items : items[i][1] = base + j - 1][2])]]
+                   /\ resp' = [kind |-> "addrow", id |-> base + n - 1]
+                /\ UNCHANGED <<files, ix, qobj, hid, dictOK>>
 TFlush == IsEvent("Flush") /\ Flush(Ev.p) /\ resp'.ok = Ev.ok /\ HashOK(Ev.p) /\ UNCHANGED dictOK
 TOpen == IsEvent("Open") /\ Open(Ev.p, Ev.mode) /\ resp'.ok = Ev.ok /\ HashOK(Ev.p) /\ UNCHANGED dictOK
 TClose == IsEvent("Close") /\ Close(Ev.p) /\ HashOK(Ev.p) /\ UNCHANGED dictOK
@@ -52,7 +62,7 @@ TExecQ == /\ IsEvent("ExecQ") /\ Exec(Ev.p, Ev.qid) /\ resp'.res = Ev.res /\ Ev.
           /\ ResMatches(w[Ev.p].rows, qobj[Ev.qid].e, qobj[Ev.qid].gb, Ev.res)
           /\ HashOK(Ev.p) /\ UNCHANGED dictOK
 
-TNext == TReset \/ TDict \/ TPlant \/ TNewWriter \/ TDropWriter \/ TAddRows \/ TFlush \/ TOpen \/ TClose \/ TSchema \/ TExec \/ TNewQuery \/ TExecQ
+TNext == TReset \/ TDict \/ TPlant \/ TNewWriter \/ TDropWriter \/ TAddRows \/ TConcAddRows \/ TFlush \/ TOpen \/ TClose \/ TSchema \/ TExec \/ TNewQuery \/ TExecQ
 TSpec == TInit /\ [][TNext]_tvars
 
 \* (the properties are conjuncts of the trace actions, so a wrong answer stops the trace at that
